@@ -1,78 +1,4 @@
-// (continues prelude/board_spec_core.rs)
-// ---- moving a piece on a placement (Appendix A)
-
-
-
-pub open spec fn mp_result(m: Placement, start: Square, dest: Square, piece: Kind, promoted: Option<Kind>, captured: Option<Kind>, ep: bool) -> Placement {
-    let m1 = upd(m, start, None);
-    let m2 = if captured.is_some() { upd(m1, cap_sq(start, dest, ep), None) } else { m1 };
-    upd(m2, dest, Some(lands(piece, promoted)))
-}
-pub open spec fn ump_ok(m: Placement, start: Square, dest: Square, piece: Kind, promoted: Option<Kind>, captured: Option<Kind>, ep: bool) -> bool {
-    &&& sq_ok(start) && sq_ok(dest) && start != dest
-    &&& m(dest) == Some(lands(piece, promoted))
-    &&& m(start).is_none()
-    &&& (ep ==> captured.is_some() && cap_sq(start, dest, ep) != start && cap_sq(start, dest, ep) != dest && m(cap_sq(start, dest, ep)).is_none())
-}
-pub open spec fn ump_result(m: Placement, start: Square, dest: Square, piece: Kind, promoted: Option<Kind>, captured: Option<Kind>, ep: bool) -> Placement {
-    let m1 = upd(m, dest, None);
-    let m2 = if captured.is_some() { upd(m1, cap_sq(start, dest, ep), captured) } else { m1 };
-    upd(m2, start, Some(piece))
-}
-
-// ---- castling geometry (FIDE 3.8.2): king e->g / e->c, rook h->f / a->d on the king's rank
-
-
-
-
-/// placement after the whole move: the mover, then the rook hop when castling
-pub open spec fn placed(m: Placement, p: Ply, turn: Color) -> Placement {
-    let m1 = mp_result(m, p.start, p.dest, p.piece, p.promoted_to, p.captured_piece, p.en_passant);
-    if p.is_castles { mp_result(m1, rook_from(p.dest), rook_to(p.dest), Kind::Rook(turn), None, None, false) } else { m1 }
-}
-
-// ---- castling rights (C03): lost exactly when the king moved, that rook left its corner, or that rook was
-// captured on its corner; never regained
-pub open spec fn lose(s: CastlingStatus, cond: bool) -> CastlingStatus { if cond { CastlingStatus::Unavailable } else { s } }
-#[verifier::opaque]
-pub open spec fn rights_after(r: CastlingRights, piece: Kind, start: Square, captured: Option<Kind>, dest: Square) -> CastlingRights {
-    CastlingRights {
-        white_kingside: lose(r.white_kingside,
-            piece == Kind::King(Color::White) || (piece == Kind::Rook(Color::White) && start == sq(0, 7))
-            || (captured == Some(Kind::Rook(Color::White)) && dest == sq(0, 7))),
-        white_queenside: lose(r.white_queenside,
-            piece == Kind::King(Color::White) || (piece == Kind::Rook(Color::White) && start == sq(0, 0))
-            || (captured == Some(Kind::Rook(Color::White)) && dest == sq(0, 0))),
-        black_kingside: lose(r.black_kingside,
-            piece == Kind::King(Color::Black) || (piece == Kind::Rook(Color::Black) && start == sq(7, 7))
-            || (captured == Some(Kind::Rook(Color::Black)) && dest == sq(7, 7))),
-        black_queenside: lose(r.black_queenside,
-            piece == Kind::King(Color::Black) || (piece == Kind::Rook(Color::Black) && start == sq(7, 0))
-            || (captured == Some(Kind::Rook(Color::Black)) && dest == sq(7, 0))),
-    }
-}
-/// definition of rights_after, visible only where this lemma is in a `broadcast use`
-pub broadcast proof fn reveal_rights_after(r: CastlingRights, piece: Kind, start: Square, captured: Option<Kind>, dest: Square)
-    ensures #[trigger] rights_after(r, piece, start, captured, dest) == (CastlingRights {
-        white_kingside: lose(r.white_kingside,
-            piece == Kind::King(Color::White) || (piece == Kind::Rook(Color::White) && start == sq(0, 7))
-            || (captured == Some(Kind::Rook(Color::White)) && dest == sq(0, 7))),
-        white_queenside: lose(r.white_queenside,
-            piece == Kind::King(Color::White) || (piece == Kind::Rook(Color::White) && start == sq(0, 0))
-            || (captured == Some(Kind::Rook(Color::White)) && dest == sq(0, 0))),
-        black_kingside: lose(r.black_kingside,
-            piece == Kind::King(Color::Black) || (piece == Kind::Rook(Color::Black) && start == sq(7, 7))
-            || (captured == Some(Kind::Rook(Color::Black)) && dest == sq(7, 7))),
-        black_queenside: lose(r.black_queenside,
-            piece == Kind::King(Color::Black) || (piece == Kind::Rook(Color::Black) && start == sq(7, 0))
-            || (captured == Some(Kind::Rook(Color::Black)) && dest == sq(7, 0))),
-    }),
-{ reveal(rights_after); }
-
-pub open spec fn clock_after(prev: int, p: Ply) -> int {
-    if is_pawn(p.piece) || p.captured_piece.is_some() { 0 } else { prev + 1 }
-}
-
+// (continues prelude/step_spec.rs)
 // ---- the board seen as a game state
 pub open spec fn last(b: Board) -> Ply { b.history@[b.history@.len() - 1] }
 
